@@ -189,7 +189,7 @@ PROPS = {
         ],
     },
     "C11": {
-        "lean_modules": ["DocsModel.Props.C11", "DocsModel.Props.C11One", "DocsModel.Props.C11Net", "DocsModel.Props.Live", "DocsModel.Props.LiveGossip", "DocsModel.Props.C11Live"],
+        "lean_modules": ["DocsModel.Props.C11", "DocsModel.Props.C11One", "DocsModel.Props.C11Net", "DocsModel.Props.Live", "DocsModel.Props.LiveGossip", "DocsModel.Props.C11Live", "DocsModel.Props.LiveWf"],
         "trusted_base": COMMON_TRUST + [
             "live-actor component (harness/src/live.rs, Model/Live.lean, Props/Live.lean, hook H9): one real live actor whose loop does not run; every handler the loop dispatches to (start_sync, leave, Subscribe, NeighborUp/Down, on_replica_event, start_download, on_download_ready, on_neighbor_content_ready, on_sync_report, accept_sync_request, sync_with_peer, the three completion handlers) is called by the harness and compared after every call with the model: dials, gossip messages handed to an active topic, requests handed to the downloader, events per subscriber, replies, and the whole book-keeping (documents, topics, both maps of the download queue, missing hashes, providers, every slot, the useful peers in the store); each property compares the fields it is about; gossip delivery, the downloader and the task futures are played by the harness",
             "the network and the tokio tasks are replaced by the model's scheduler: a connect/accept task is alive from its spawn until the live actor has processed its completion; requests are delivered or lost; the two ends of a session complete independently",
